@@ -25,11 +25,12 @@ def gen(rng, tier):
                 ts, args = dict(id=fid, kind="work", dur=rng.choice([0, 0.01, 0.2, 1.0])), []
             ops.append(submit_op("A", fid, ts, args))
             if rng.random() < 0.2:
-                ops.append({"op": "callback", "f": fid, "mode": rng.choice(["raise", "raise_base", "ok"])})
+                ops.append({"op": "callback", "f": fid, "mode": rng.choice(["raise", "raise_base", "ok", "submit", "submit"])})
             fid += 1
         ops.append({"op": "wait_all"})
     if nthreads > 1:
         main.append({"op": "join_users"})
+    main.append({"op": "settle"})
     main.append({"op": "check_idle", "ex": "A"})
     main.append(submit_op("A", 8000, dict(id=8000, kind="work", dur=0), []))
     main.append({"op": "result", "f": 8000})
